@@ -194,7 +194,7 @@ pub fn c01_specs(cfg: &Cfg, nv_max: usize, na_max: usize, thorough: bool) -> Vec
                     }
                 }
                 let vsizes: Vec<usize> = if thorough { (0..2 + nv.max(1)).collect() } else { vec![0, 1, 2 + nv / 2] };
-                let asizes: Vec<usize> = if na == 0 { vec![0] } else if thorough { vec![0, 1, 2] } else { vec![0] };
+                let asizes: Vec<usize> = if na == 0 { vec![0] } else if thorough { vec![0, 1, 2] } else { vec![0, 1] };
                 for dp in 0..DTS_PATTERNS {
                     for (mode, perm) in &modes {
                         for keymask in 0..(1u32 << nv.saturating_sub(1)) {
